@@ -58,7 +58,7 @@ def run(ctx):
                                              nstores=ctx.pick(5, 7 if big else 5), ndrains=3,
                                              nqueries=0, ticks=(st == 'timesorted'))
         cfg = dict(strategy=st, max=(ctx.rng.choice([2, 3]) if w % 2 == 1 else None), flow=False, lag=lag)   # every second workload: bounded cache (refusals)
-        expl.append((cfg, r_ops, w_ops, ctx.pick(1, 2), ctx.pick(40, 400), ctx.pick(150, 4000)))
+        expl.append((cfg, r_ops, w_ops, ctx.pick(1, 2), ctx.pick(40, 200), ctx.pick(150, 1200)))
   mods, col, verdicts = cachecheck.run_plan(ctx, 'C17', models, sims, expl)
   w = f9_witness(ctx, mods)
   if w:
